@@ -136,6 +136,8 @@ class Interp:
 
     # ---- function calls -------------------------------------------------
     def call(self, name, *args, **kwargs):
+        if getattr(self, '_depth', 0) == 0:
+            self.steps = 0
         if name not in self.funcs:
             raise Unmodelled(f'function {name} not found in {self.module.relpath}')
         return self.call_node(self.funcs[name], args, kwargs)
@@ -167,10 +169,13 @@ class Interp:
         missing = [p for p in params if p not in env]
         if missing:
             raise Unmodelled(f'{fn.name}() missing arguments {missing}')
+        self._depth = getattr(self, '_depth', 0) + 1
         try:
             self.block(fn.body, env)
         except _Return as r:
             return r.v
+        finally:
+            self._depth -= 1
         return None
 
     # ---- statements -------------------------------------------------------
